@@ -24,7 +24,16 @@ type LSt int
 
 var lstDisplay = "St"
 
-func (s LSt) String() string { return lstDisplay + strconv.Itoa(int(s)) }
+// lstCollide: every status displays the same text (a hand-written String() with a default branch, a status added without
+// updating it): display strings are not identifiers
+var lstCollide = false
+
+func (s LSt) String() string {
+	if lstCollide {
+		return "Unknown"
+	}
+	return lstDisplay + strconv.Itoa(int(s))
+}
 
 type lobj struct{ N int }
 
@@ -360,6 +369,13 @@ func Launch(d *leandrv.Driver, r *rng.R, res *report.Result, thorough bool) erro
 		lstDisplay = "St"
 		if err2 == nil && strings.Join(got2, ",") != strings.Join(got, ",") {
 			res.Violate(report.Violation{Property: "C10", Oracle: "launch-list", Signature: "role-depends-on-display-string", Detail: "roles changed with the status display strings: " + diffRoles(got2, got), Replay: map[string]any{"suite": "pure-launch", "config": c}})
+		}
+		// ... not even when several statuses share one
+		lstCollide = true
+		got3, _, err3 := launchAndRecord(c)
+		lstCollide = false
+		if err3 == nil && strings.Join(got3, ",") != strings.Join(got, ",") {
+			res.Violate(report.Violation{Property: "C10", Oracle: "launch-list", Signature: "role-depends-on-display-string", Detail: "with all statuses displayed as \"Unknown\" the roles awaited differ: " + diffRoles(got3, got), Replay: map[string]any{"suite": "pure-launch", "config": c}})
 		}
 		res.Traces++
 	}
